@@ -408,6 +408,45 @@ theorem massCut_residual (S n : Nat) (bel : Nat → Nat → Rat) (y : Nat → Ra
     rw [sumTo_mul_left]; ring
   rw [this]; ring
 
+/-- **`makeNewPomdp` as executed is an instance of `fibPassT`.**  If the interpolation weights `W` reconstruct every successor exactly
+    (C12 `lpinterp_weights` + `sosa_row_reconstructs`) over `n` pseudo-states of mass 1, the table the library stores — `libCut` of every
+    row — reconstructs them up to explicit residuals whose mass, summed over the observations, is at most `O·n·1e-6`: the hypotheses
+    `hW0`, `hd0`, `hrec`, `hD` of the event `fibPassT` with `Dmax = O·n·equalToleranceSmall`. -/
+theorem cut_table_residuals (m : POMDP) (n : Nat) (bel : Nat → Nat → Rat) (hbel : ∀ j, j < n → NN (bel j))
+    (hm : ∀ j, j < n → mass m.S (bel j) = 1) (W : Nat → Nat → Nat → Nat → Rat) (hW0 : ∀ a o i j, 0 ≤ W a o i j)
+    (hrec : ∀ a, a < m.A → ∀ o, o < m.O → ∀ i, i < n → ∀ s1, s1 < m.S → bstep m (bel i) a o s1 = sumTo n (fun j => W a o i j * bel j s1)) :
+    (∀ a o i j, 0 ≤ libCut (W a o i) j) ∧
+    ∃ d : Nat → Nat → Nat → Nat → Rat, (∀ a o i, NN (d a o i)) ∧
+      (∀ a, a < m.A → ∀ o, o < m.O → ∀ i, i < n → ∀ s1, s1 < m.S →
+        bstep m (bel i) a o s1 = sumTo n (fun j => libCut (W a o i) j * bel j s1) + d a o i s1) ∧
+      (∀ i, i < n → ∀ a, a < m.A → sumTo m.O (fun o => mass m.S (d a o i)) ≤ (m.O : Rat) * ((n : Rat) * Gen.equalToleranceSmall)) := by
+  have hθ : (0 : Rat) ≤ Gen.equalToleranceSmall := by unfold Gen.equalToleranceSmall; norm_num
+  have hcut : ∀ w : Nat → Rat, libCut w = truncW Gen.equalToleranceSmall w := by
+    intro w; unfold libCut; rw [src_gapmin_weight_cut]; simp
+  have hdiff : ∀ (w : Nat → Rat), (∀ j, 0 ≤ w j) → ∀ j, 0 ≤ w j - libCut w j ∧ w j - libCut w j ≤ Gen.equalToleranceSmall := by
+    intro w hw j
+    rw [hcut]; unfold truncW; split
+    · exact ⟨by have := hw j; linarith, by linarith⟩
+    · exact ⟨by linarith, by linarith⟩
+  refine ⟨fun a o i j => by rw [hcut]; exact truncW_nonneg _ _ (hW0 a o i) j,
+    fun a o i s => sumTo n (fun j => (W a o i j - libCut (W a o i) j) * bel j s), fun a o i s => ?_, fun a ha o ho i hi s1 hs1 => ?_, fun i _ a _ => ?_⟩
+  · exact sumTo_nonneg (fun j hj => mul_nonneg (hdiff _ (hW0 a o i) j).1 (hbel j hj s))
+  · rw [hrec a ha o ho i hi s1 hs1, ← sumTo_add]
+    exact sumTo_congr (fun j _ => by ring)
+  · rw [← sumTo_const]
+    refine sumTo_le (fun o _ => ?_)
+    unfold mass
+    rw [sumTo_comm]
+    have : sumTo n (fun j => sumTo m.S (fun s => (W a o i j - libCut (W a o i) j) * bel j s)) ≤ sumTo n (fun _ => Gen.equalToleranceSmall) := by
+      refine sumTo_le (fun j hj => ?_)
+      rw [sumTo_mul_left]
+      have := hm j hj
+      unfold mass at this
+      rw [this, mul_one]
+      exact (hdiff _ (hW0 a o i) j).2
+    rw [sumTo_const] at this
+    exact this
+
 /-! ## the LOWER side: `Projecter::computePossibleObservations` treats an (action, observation) pair whose probability is at most 1e-6 in every
     successor state as impossible — its projection is the bare reward share, i.e. the continuation of that observation is the zero vector -/
 
